@@ -1461,41 +1461,143 @@ Qed.
 Lemma p_root_skip n ts : p_root n (skip_eol ts) = p_root n ts.
 Proof. destruct n; [reflexivity|]. cbn [p_root]. rewrite skip_eol_idem. reflexivity. Qed.
 
-Lemma r_prog_skip p : skip_eol (r_prog inner p) = [] \/
-  exists bl c s p' r, p = (bl, c, s) :: p' /\ skip_eol (r_prog inner p) = r_stmt inner c s ++ r.
+Lemma span_atoks_eol stop l c (r : list ptok) :
+  (forall a, stop (TA a) = false) ->
+  span_until stop (atoks l ++ @cons ptok (TEOL, c) r) = (map TA l, @cons ptok (TEOL, c) r).
 Proof.
-  destruct p as [|[[bl c] s] p']; [left; reflexivity|right].
-  exists bl, c, s, p'. eexists. split; [reflexivity|]. cbn [r_prog]. rewrite skip_eols, skip_stmt. reflexivity.
+  intros Hs. induction l as [|a l IH]; cbn [Layout.atoks map app span_until].
+  - rewrite orb_true_r. reflexivity.
+  - rewrite Hs. cbn [orb]. unfold Layout.atoks in IH. rewrite IH. reflexivity.
+Qed.
+
+Definition root_head (t : tok) : Prop := t = TLET \/ t = TTYPE \/ exists k, t = TKW k.
+Lemma root_head_facts t : root_head t -> t <> TEOL /\ t <> TBAR /\ t <> TRP /\ is_binop t = false /\ noelse t.
+Proof. intros [->|[->|(k & ->)]]; repeat split; discriminate. Qed.
+
+Lemma r_root_head c x k : wf_root x -> exists t (r : list ptok), r_root inner c x ++ k = @cons ptok (t, c) r /\ root_head t.
+Proof.
+  destruct x as [s|name b0 c0 case0 cases|name b0 c0 d0 defs|kw toks]; intros W.
+  - destruct W as (_ & NE). cbn [r_root]. destruct (r_stmt_head c s k) as (t0 & r0 & E0 & H0).
+    exists t0, r0. split; [exact E0|]. left.
+    destruct s as [x nl0 e|x y zs nl0 e|f pp ps b|e]; try contradiction.
+    + destruct nl0 as [[? ?]|]; [rewrite r_stmt_LLet_next in E0|rewrite r_stmt_LLet_same in E0]; cbn [app] in E0; inversion E0; reflexivity.
+    + rewrite r_stmt_LLetFn in E0. cbn [app] in E0. inversion E0; reflexivity.
+  - cbn [r_root app]. eexists; eexists; split; [reflexivity|right; left; reflexivity].
+  - cbn [r_root app]. eexists; eexists; split; [reflexivity|right; right; eexists; reflexivity].
+  - cbn [r_root app]. eexists; eexists; split; [reflexivity|right; right; eexists; reflexivity].
+Qed.
+
+Lemma r_prog_skip p prev : wf_prog prev p -> skip_eol (r_prog inner p) = [] \/
+  exists t c r, skip_eol (r_prog inner p) = (t, c) :: r /\ root_head t /\ under prev c.
+Proof.
+  destruct p as [|[[bl c] x] p']; intros H; [left; reflexivity|right].
+  cbn [wf_prog] in H. destruct H as (U & W & _).
+  cbn [r_prog]. rewrite skip_eols.
+  destruct (r_root_head c x (nl 0 ++ r_prog inner p') W) as (t & r & E & H).
+  exists t, c, r. rewrite E. split; [apply skip_eol_nonEOL; apply (root_head_facts t H)|]. split; assumption.
+Qed.
+
+Definition PCS ts l r := exists n0, forall n, n0 <= n -> p_cases n ts = Ok (l, r).
+Lemma cases_parse : forall cases c0 case0 K,
+  (match skip_eol K with (TBAR, _) :: _ => False | _ => True end) -> head_is_eol K = true \/ K = [] ->
+  PCS ((TBAR, c0) :: atoks case0 ++ r_cases inner cases ++ K)
+      (map TA case0 :: map (fun c => map TA (snd c)) cases) K.
+Proof.
+  induction cases as [|[[bl c] toks] cases IH]; intros c0 case0 K NB HK.
+  - cbn [r_cases app map]. exists 1. intros n Hn. fuel n. cbn [p_cases].
+    destruct HK as [HK|HK].
+    + destruct K as [|[t cc] K']; [discriminate|]. destruct t; try discriminate.
+      rewrite (span_atoks_eol is_bar case0 cc K' ltac:(reflexivity)).
+      cbn [skip_eol] in *. destruct (skip_eol K') as [|[t2 c2] r2]; [reflexivity|]. destruct t2; try reflexivity; contradiction.
+    + subst K. rewrite app_nil_r.
+      assert (E : span_until is_bar (atoks case0) = (map TA case0, [])).
+      { clear. induction case0 as [|a l IH]; [reflexivity|]. cbn [Layout.atoks map span_until is_bar orb]. unfold Layout.atoks in IH. rewrite IH. reflexivity. }
+      rewrite E. reflexivity.
+  - cbn [r_cases map snd]. rewrite <- !app_assoc. unfold Layout.nl at 1. cbn [app].
+    destruct (IH c toks K NB HK) as (n1 & H1).
+    exists (S n1). intros n Hn. fuel n. cbn [p_cases].
+    rewrite (span_atoks_eol is_bar case0 inner _ ltac:(reflexivity)).
+    cbn [skip_eol]. rewrite skip_eols. cbn [skip_eol]. rewrite <- ?app_assoc. rewrite H1 by lia. reflexivity.
+Qed.
+
+Definition PXD c ts l r := exists n0, forall n, n0 <= n -> p_extdefs n c ts = Ok (l, r).
+Lemma defs_parse c0 : forall defs ci d0 K,
+  Forall (fun d => c0 <= snd (fst d)) defs ->
+  end_of_block c0 (skip_eol K) = true -> head_is_eol K = true ->
+  PXD c0 ((TLET, ci) :: atoks d0 ++ r_defs inner defs ++ K)
+      ((TLET :: map TA d0) :: map (fun d => TLET :: map TA (snd d)) defs) (skip_eol K).
+Proof.
+  induction defs as [|[[bl c] toks] defs IH]; intros ci d0 K F EB HK.
+  - cbn [r_defs app map]. exists 1. intros n Hn. fuel n. cbn [p_extdefs].
+    destruct K as [|[t cc] K']; [discriminate|]. destruct t; try discriminate.
+    cbn [span_until never orb]. rewrite (span_atoks_eol never d0 cc K' ltac:(reflexivity)).
+    rewrite EB. reflexivity.
+  - cbn [r_defs map snd]. rewrite <- !app_assoc. unfold Layout.nl at 1. cbn [app].
+    inversion F as [|? ? Fc F']; subst. cbn [fst snd] in Fc.
+    destruct (IH c toks K F' EB HK) as (n1 & H1).
+    exists (S n1). intros n Hn. fuel n. cbn [p_extdefs].
+    cbn [span_until never orb]. rewrite (span_atoks_eol never d0 inner _ ltac:(reflexivity)).
+    cbn [skip_eol]. rewrite skip_eols. cbn [skip_eol end_of_block].
+    rewrite (proj2 (Nat.ltb_ge c c0) Fc). cbn [orb]. rewrite <- ?app_assoc. rewrite H1 by lia. reflexivity.
 Qed.
 
 Lemma prog_inversion : forall p prev, wf_prog prev p ->
   exists n0, forall n, n0 <= n -> p_root n (r_prog inner p) = Ok (er_prog p).
 Proof.
   destruct inversion as (_ & _ & _ & _ & _ & _ & _ & _ & _ & HS & _).
-  induction p as [|[[bl c] s] p IH]; intros prev W.
+  induction p as [|[[bl c] x] p IH]; intros prev W.
   - exists 1. intros n Hn. fuel n. reflexivity.
-  - cbn [wf_prog] in W. destruct W as (_ & Ws & NE & Wp).
+  - cbn [wf_prog] in W. destruct W as (_ & Wx & Wp).
     destruct (IH _ Wp) as (n2 & H2).
     set (k := nl 0 ++ r_prog inner p).
-    assert (F : efol 0 (stmt_bd s) (stmt_tm s) (stmt_io s) k).
-    { split; [reflexivity|]. split; [exact I|]. unfold k. rewrite skip_nl.
-      destruct (r_prog_skip p) as [->|(bl' & c' & s' & p' & r & -> & ->)]; [exact I|].
-      destruct (r_stmt_head c' s' r) as (t0 & r0 & E0 & H0). rewrite E0.
-      destruct (stmt_head_facts t0 H0) as (N1 & N2 & N3 & N4).
-      split; [exact N4|]. split; [|split].
-      - intros b Hb. right. cbn [wf_prog] in Wp. destruct Wp as (U & _). rewrite Hb in U. exact U.
-      - intros _ Ht. destruct (stmt_head_noelse t0 H0). destruct Ht as [Ht|[Ht|Ht]]; congruence.
-      - intros _. apply stmt_head_noelse. exact H0. }
-    destruct (HS s 0 c k Ws F) as (n1 & H1).
-    exists (S (Nat.max n1 n2)). intros n Hn. fuel n.
-    cbn [r_prog p_root]. rewrite skip_eols. fold k.
-    destruct (r_stmt_head c s k) as (t0 & r0 & E0 & H0).
-    assert (T : t0 = TLET).
-    { destruct s as [x nl0 e|x y zs nl0 e|f pp ps b|e]; [|contradiction| |contradiction].
-      - destruct nl0 as [[? ?]|]; [rewrite r_stmt_LLet_next in E0|rewrite r_stmt_LLet_same in E0]; cbn [app] in E0; inversion E0; reflexivity.
-      - rewrite r_stmt_LLetFn in E0. cbn [app] in E0. inversion E0; reflexivity. }
-    subst t0. rewrite skip_stmt. specialize (H1 n ltac:(lia)). rewrite E0. cbv beta iota. rewrite <- E0. rewrite H1. cbn [bind].
-    rewrite <- p_root_skip, skip_aft. unfold k. rewrite skip_nl, p_root_skip. rewrite H2 by lia. cbn [bind er_prog map snd]. reflexivity.
+    assert (SKk : skip_eol k = skip_eol (r_prog inner p)) by (unfold k; apply skip_nl).
+    destruct x as [s|name b0 c0 case0 cases|name b0 c0 d0 defs|kw toks].
+    + (* a root let *)
+      destruct Wx as (Ws & NE).
+      assert (F : efol 0 (stmt_bd s) (stmt_tm s) (stmt_io s) k).
+      { split; [reflexivity|]. split; [exact I|]. rewrite SKk.
+        destruct (r_prog_skip p _ Wp) as [->|(t0 & c' & r & -> & H0 & U)]; [exact I|].
+        destruct (root_head_facts t0 H0) as (N1 & N2 & N3 & N4 & N5).
+        split; [exact N4|]. split; [|split].
+        - intros b Hb. right. cbn [root_bd] in U. rewrite Hb in U. exact U.
+        - intros _ Ht. destruct N5. destruct Ht as [Ht|[Ht|Ht]]; congruence.
+        - intros _. exact N5. }
+      destruct (HS s 0 c k Ws F) as (n1 & H1).
+      exists (S (Nat.max n1 n2)). intros n Hn. fuel n.
+      cbn [r_prog r_root p_root]. rewrite skip_eols. fold k.
+      destruct (r_root_head c (RLetL s) k (conj Ws NE)) as (t0 & r0 & E0 & H0). cbn [r_root] in E0.
+      assert (T : t0 = TLET).
+      { destruct s as [x nl0 e|x y zs nl0 e|f pp ps b|e]; try contradiction.
+        - destruct nl0 as [[? ?]|]; [rewrite r_stmt_LLet_next in E0|rewrite r_stmt_LLet_same in E0]; cbn [app] in E0; inversion E0; reflexivity.
+        - rewrite r_stmt_LLetFn in E0. cbn [app] in E0. inversion E0; reflexivity. }
+      subst t0. rewrite skip_stmt. specialize (H1 n ltac:(lia)). rewrite E0. cbv beta iota. rewrite <- E0. rewrite H1. cbn [bind].
+      rewrite <- p_root_skip, skip_aft. rewrite SKk, p_root_skip. rewrite H2 by lia. reflexivity.
+    + (* a union definition *)
+      assert (NB : match skip_eol k with (TBAR, _) :: _ => False | _ => True end).
+      { rewrite SKk. destruct (r_prog_skip p _ Wp) as [->|(t0 & c' & r & -> & H0 & U)]; [exact I|].
+        destruct (root_head_facts t0 H0) as (_ & N2 & _). destruct t0; try exact I. congruence. }
+      destruct (cases_parse cases c0 case0 k NB (or_introl eq_refl)) as (n1 & H1).
+      exists (S (Nat.max n1 n2)). intros n Hn. fuel n.
+      cbn [r_prog r_root p_root]. rewrite skip_eols. cbn [app skip_eol span_until is_eq orb].
+      rewrite <- ?app_assoc. rewrite ?skip_nl. cbn [app skip_eol]. rewrite <- ?app_assoc. fold k.
+      rewrite H1 by lia. cbn [bind]. rewrite <- p_root_skip, SKk, p_root_skip. rewrite H2 by lia. reflexivity.
+    + (* a package_info block *)
+      destruct Wx as (L0 & Fd).
+      assert (EB : end_of_block c0 (skip_eol k) = true).
+      { rewrite SKk. destruct (r_prog_skip p _ Wp) as [->|(t0 & c' & r & -> & H0 & U)]; [reflexivity|].
+        cbn [root_bd under] in U. cbn [end_of_block]. rewrite (proj2 (Nat.ltb_lt c' c0) U). reflexivity. }
+      destruct (defs_parse c0 defs c0 d0 k Fd EB eq_refl) as (n1 & H1).
+      exists (S (Nat.max n1 n2)). intros n Hn. fuel n.
+      cbn [r_prog r_root p_root]. rewrite skip_eols. cbn [app skip_eol is_pkginfo Nat.eqb span_until is_eq orb].
+      rewrite <- ?app_assoc. rewrite ?skip_nl. cbn [app skip_eol]. rewrite <- ?app_assoc. fold k.
+      destruct (c0 <=? 0) eqn:Ec; [apply Nat.leb_le in Ec; lia|].
+      rewrite H1 by lia. cbn [bind]. rewrite SKk, p_root_skip. rewrite H2 by lia. reflexivity.
+    + (* a package / import line *)
+      exists (S n2). intros n Hn. fuel n.
+      cbn [r_prog r_root p_root]. rewrite skip_eols. cbn [app skip_eol is_pkginfo Nat.eqb].
+      unfold Layout.nl. cbn [app Layout.eols repeat].
+      rewrite (span_atoks_eol never toks inner _ ltac:(reflexivity)).
+      change ((TEOL, inner) :: r_prog inner p) with k. rewrite <- p_root_skip, SKk, p_root_skip. rewrite H2 by lia. reflexivity.
 Qed.
 
 End Inv.
